@@ -99,7 +99,11 @@ func (c *CPS) c04bAssignPath(x *ast.AssignStmt, rest []ast.Stmt, k, ind string) 
 		if err != nil {
 			return "", err
 		}
-		val = "{ " + base + " with " + leanName(se.Sel.Name) + " := " + val + " }"
+		field := leanName(se.Sel.Name)
+		if n, ok := c.Names[goKey(se)]; ok && strings.HasPrefix(n, base+".") && !strings.ContainsAny(n[len(base)+1:], ". ()") {
+			field = n[len(base)+1:] // the configured Lean name of this Go field
+		}
+		val = "{ " + base + " with " + field + " := " + val + " }"
 		path = se.X
 	}
 	if id, ok := path.(*ast.Ident); !ok || id.Name != root {
